@@ -90,6 +90,8 @@ type Engine struct {
 	Funs  map[string]*val.Val // harness function values by Impl key
 	Be    Backend
 	tyctx *TyCtx
+	// Shared: names whose values are built with repeated sub-values being one shared value
+	Shared map[string]bool
 }
 
 // NewEngine creates a fresh engine on a back end and registers the given
@@ -118,6 +120,10 @@ func TypeEnv(env map[string]*model.Type) *types.Env {
 func (en *Engine) ValEnv(env map[string]*model.Val) *val.Env {
 	ve := val.NewEnv()
 	for _, n := range sortedValKeys(env) {
+		if en.Shared[n] {
+			ve.Put(n, ToYaeValShared(env[n], en.lookupFun))
+			continue
+		}
 		ve.Put(n, ToYaeVal(env[n], en.lookupFun))
 	}
 	return ve
